@@ -16,7 +16,7 @@ use vbase::{ensure, fail};
 
 use crate::family::{Adjacent, Deny, Enums, External, Flat, Internal, Nested, Plain, Tree, Untagged, WithOpt};
 
-pub const RULE: &str = "cases are byte strings: generated well-formed documents, one or two random mutations of them, random bytes and token soup, every truncation / substitution / deletion of a document set, an alignment sweep (short documents padded to every total length 1..=200 at offsets 0..=64), and a depth sweep (nesting 1..=300, 1000, 10^4, 10^5, 10^6 of arrays, objects, alternating, closed and unclosed). Each input is handed to every safe entry point (from_slice/from_str/from_reader for Value, Option<Value>, structs, LazyValue, OwnedLazyValue, RawNumber, Number, strings, numbers, containers, enums, serde_json::Value, IgnoredAny; Deserializer::from_json over &str/&[u8]/&String/&Bytes/&FastStr with repeated deserialize, into_stream, use_rawnumber, utf8_lossy; get/get_from_*/get_many/get_by_schema with fixed path sets; both lazy iterators and LazyValue::into_*_iter; on every Ok the accessor set, to_string, to_string_pretty, Display, Debug, conversions LazyValue -> OwnedLazyValue -> Value; on every Err Display, Debug, offset/line/column/classify). The input buffer is placed on the heap, ending exactly at a PROT_NONE guard page, or starting right after one. Violations: a panic (caught, with payload), a fatal signal (SIGSEGV incl. stack overflow, SIGABRT, SIGBUS — captured by a signal handler that writes the replay file), a double free or write after free seen by the quarantine allocator, or allocations left behind by the second of two identical runs (leak). Non-trivial = input of length >= 2 of which at least one entry point consumed >= 2 bytes (Ok, or an error with offset >= 1); distinct by input bytes.";
+pub const RULE: &str = "cases are byte strings: generated well-formed documents, one or two random mutations of them, random bytes and token soup, every truncation / substitution / deletion of a document set, an alignment sweep (short documents padded to every total length 1..=200 at offsets 0..=64), and a depth sweep (nesting 1..=300, 1000, 10^4, 10^5, 10^6 of arrays, objects, alternating, closed and unclosed). Each input is handed to every safe entry point (from_slice/from_str/from_reader for Value, Option<Value>, structs, LazyValue, OwnedLazyValue, RawNumber, Number, strings, numbers, containers, enums, serde_json::Value, IgnoredAny; Deserializer::from_json over &str/&[u8]/&String/&Bytes/&FastStr with repeated deserialize, into_stream, use_rawnumber, utf8_lossy; get/get_from_*/get_many/get_by_schema with fixed path sets; both lazy iterators and LazyValue::into_*_iter; on every Ok the accessor set, to_string, to_string_pretty, Display, Debug, conversions LazyValue -> OwnedLazyValue -> Value; on every Err Display, Debug, offset/line/column/classify; owned results — Value, structs/Vec/maps of Value, later stream documents, OwnedLazyValue, get_by_schema, in default, raw-number and lossy mode — are also parsed from a private mapping that is unmapped before the result is read, cloned and serialized, so a pointer kept into the caller's input faults). The input buffer is placed on the heap, ending exactly at a PROT_NONE guard page, or starting right after one. Violations: a panic (caught, with payload), a fatal signal (SIGSEGV incl. stack overflow, SIGABRT, SIGBUS — captured by a signal handler that writes the replay file), a double free or write after free seen by the quarantine allocator, or allocations left behind by the second of two identical runs (leak). Non-trivial = input of length >= 2 of which at least one entry point consumed >= 2 bytes (Ok, or an error with offset >= 1); distinct by input bytes.";
 pub const ASSUMPTIONS: &[&str] = &["unsafe *_unchecked functions are not part of C01's entry points", "the depth sweep runs on threads with Rust's default 2 MiB stack; bounded stack means bounded independently of the nesting depth", "thorough tier: libFuzzer + AddressSanitizer + LeakSanitizer over the same entry-point table"];
 
 #[derive(Deserialize)]
@@ -91,6 +91,11 @@ macro_rules! typed {
 /// Run every safe entry point on `input`. `deep`: the input is a nesting-depth probe (skip the
 /// quadratic-ish extras, keep every recursive entry point).
 pub fn exercise(input: &[u8], deep: bool) -> bool {
+    exercise_opts(input, deep, true)
+}
+
+/// `with_detached`: also run the routes that unmap the input before the owned result is used
+pub fn exercise_opts(input: &[u8], deep: bool, with_detached: bool) -> bool {
     let mut p = Probe { consumed2: false };
     let p = &mut p;
     // ---- DOM
@@ -266,6 +271,102 @@ pub fn exercise(input: &[u8], deep: bool) -> bool {
             }
         }
     }
+    // ---- owned results must not point into the caller's input: parse from a private mapping,
+    // unmap it, and only then look at the result (a dangling pointer faults on the unmapped page)
+    // (only worth the mappings when the input starts with a value some owned result can come from)
+    if !deep && with_detached && Deserializer::from_json(input).utf8_lossy().deserialize::<IgnoredAny>().is_ok() {
+        fn detached<T>(bytes: &[u8], parse: impl for<'a> FnOnce(&'a [u8]) -> T) -> T {
+            let g = Guarded::ending_at_guard(bytes);
+            let r = parse(g.bytes());
+            drop(g);
+            r
+        }
+        let mut streamed = Vec::with_capacity(input.len() + 2);
+        streamed.extend_from_slice(b"0 ");
+        streamed.extend_from_slice(input);
+        for mode in 0..3u8 {
+            fn de<'a>(b: &'a [u8], mode: u8) -> Deserializer<sonic_rs::Read<'a>> {
+                let d = Deserializer::from_json(b);
+                match mode {
+                    0 => d,
+                    1 => d.use_rawnumber(),
+                    _ => d.utf8_lossy(),
+                }
+            }
+            let use_owned = |v: &Value| {
+                use_value(v, 1);
+                let _ = sonic_rs::to_string(v).map(|s| s.len());
+                let c = v.clone();
+                let _ = c == *v;
+            };
+            if let Ok(v) = detached(input, |b| de(b, mode).deserialize::<Value>()) {
+                use_owned(&v);
+            }
+            if let Ok(w) = detached(input, |b| de(b, mode).deserialize::<WithValue>()) {
+                use_owned(&w.v);
+                if let Some(o) = &w.o {
+                    use_lazy(o);
+                    let _ = sonic_rs::to_string(o).map(|s| s.len());
+                }
+            }
+            if let Ok(vs) = detached(input, |b| de(b, mode).deserialize::<Vec<Value>>()) {
+                for v in vs.iter().take(4) {
+                    use_owned(v);
+                }
+            }
+            if let Ok(m) = detached(input, |b| de(b, mode).deserialize::<BTreeMap<String, Value>>()) {
+                for v in m.values().take(4) {
+                    use_owned(v);
+                }
+            }
+            let vs = detached(&streamed, |b| {
+                let mut d = de(b, mode);
+                let mut out = Vec::new();
+                for _ in 0..3 {
+                    match d.deserialize::<Value>() {
+                        Ok(v) => out.push(v),
+                        Err(_) => break,
+                    }
+                }
+                out
+            });
+            for v in &vs {
+                use_owned(v);
+            }
+            let os = detached(&streamed, |b| {
+                let mut st = de(b, mode).into_stream::<OwnedLazyValue>();
+                let mut out = Vec::new();
+                for _ in 0..3 {
+                    match st.next() {
+                        Some(Ok(v)) => out.push(v),
+                        _ => break,
+                    }
+                }
+                out
+            });
+            for o in &os {
+                use_lazy(o);
+                let _ = sonic_rs::to_string(o).map(|s| s.len());
+                let _ = o.as_array().map(|a| a.len());
+                let _ = o.as_object().map(|a| a.len());
+            }
+        }
+        if let Ok(o) = detached(input, |b| sonic_rs::from_slice::<LazyValue>(b).map(OwnedLazyValue::from)) {
+            use_lazy(&o);
+            let _ = sonic_rs::to_string(&o).map(|s| s.len());
+        }
+        if let Ok(Ok(v)) = detached(input, |b| sonic_rs::from_slice::<LazyValue>(b).map(Value::try_from)) {
+            use_value(&v, 1);
+            let _ = sonic_rs::to_string(&v).map(|s| s.len());
+        }
+        for schema in ["{\"a\":null,\"k\":{\"b\":[1]}}", "{}"] {
+            let sv: Value = sonic_rs::from_str(schema).unwrap();
+            if let Ok(v) = detached(input, |b| sonic_rs::get_by_schema(b, sv)) {
+                use_value(&v, 1);
+                let _ = sonic_rs::to_string(&v).map(|s| s.len());
+            }
+        }
+    }
     // ---- lookups
     let paths: [Vec<PointerNode>; 7] = [vec![], vec![PointerNode::Index(0)], vec![PointerNode::Index(3)], vec![PointerNode::Key("a".into())], vec![PointerNode::Key("k".into()), PointerNode::Index(0)], vec![PointerNode::Index(0), PointerNode::Index(0), PointerNode::Index(0)], vec![PointerNode::Key("".into())]];
     for path in &paths {
@@ -349,7 +450,7 @@ pub fn oracle(case: &[u8], obs: &mut Obs) -> Result<(), Fail> {
     let consumed = exercise(input, false);
     alloc::flush_quarantine();
     let before = alloc::thread_live();
-    let r = vbase::engine::catch(|| exercise(input, false));
+    let r = vbase::engine::catch(|| exercise_opts(input, false, false));
     alloc::flush_quarantine();
     let after = alloc::thread_live();
     alloc::set_strict(false);
